@@ -106,6 +106,8 @@ def random_trace(job):
                         choices += ["next"] * 3
                     if running and not cancelled_out:
                         choices += ["cancelout"] if rng.random() < 0.2 else []
+                elif real.out is None:
+                    break          # the constructor raised: nothing more to drive
                 else:
                     if comb in ("timeout", "tmulti") and not real.out.done() and not cancelled_out:
                         choices += ["advance"]
